@@ -921,6 +921,50 @@ def run(prog, rep, tier):
         if sp_:
             rep.violation(R49, ob_.path + "|signed-seconds", "%s (line %d) applies %s to a FixedOffset's signed second count without taking the magnitude first: negative offsets with a minute part come out wrong (-03:30 as -04:30 or -03:-30)" % (ob_.path.split("::")[-1], sp_[0][0], sp_[0][1]))
 
+    # ------------------------------------------------------------ R4.15 messages dated by a pattern that lost the analysis are parsed again
+    # Stage 1 tries every pattern on the first messages, then dt_patterns_analysis() keeps the one that
+    # matched most.  Messages already stored were dated by whichever pattern matched them first - possibly
+    # one that reads the zone differently - so when more than one pattern was in use *before* the analysis
+    # they are cleared and parsed again.  That decision needs the count taken before the analysis: after
+    # it the count is always 1 and the re-parse never runs (first message of the file keeps an instant
+    # computed by a pattern the rest of the file is not read with).
+    R415 = rep.rule("R4.15", "the decision to re-parse the stage-1 messages uses the pattern count taken before the pattern analysis")
+    bz415 = prog.body("s4lib::readers::syslogprocessor::SyslogProcessor::blockzero_analysis_syslines")
+    ana_ = [c for c in bz415.live_calls() if c.d.endswith("SyslineReader::dt_patterns_analysis")]
+    clr_ = [c for c in bz415.live_calls() if c.d.endswith("SyslineReader::clear_syslines")]
+    cnt_ = [c for c in bz415.live_calls() if c.d.endswith("SyslineReader::dt_patterns_counts_in_use")]
+    if len(ana_) != 1 or not clr_ or not cnt_:
+        raise CheckerError("R4.15: blockzero_analysis_syslines: %d analysis, %d clear_syslines, %d count calls" % (len(ana_), len(clr_), len(cnt_)))
+    for cl_ in clr_:
+        # the switch that guards the re-parse: nearest dominating switch whose condition derives from a count call
+        guards_ = []
+        for bb in sorted(bz415.live):
+            t_ = bz415.term(bb)
+            if t_[0] != "switch" or not bz415.dominates(bb, cl_.bb) or bb == cl_.bb:
+                continue
+            srcs_ = set()
+            for o_ in bz415.origins(t_[1], through_calls=("::not",)):
+                if o_[0] == "bin":
+                    st_ = bz415.stmts(o_[1])[o_[2]]
+                    for a_ in (st_[2][2], st_[2][3]):
+                        if a_[0] != "k":
+                            for o2_ in bz415.origins(a_):
+                                if o2_[0] == "call" and o2_[2].endswith("dt_patterns_counts_in_use"):
+                                    srcs_.add(o2_[1])
+                elif o_[0] == "call" and o_[2].endswith("dt_patterns_counts_in_use"):
+                    srcs_.add(o_[1])
+            if srcs_:
+                guards_.append((bb, srcs_))
+        if not guards_:
+            raise CheckerError("R4.15: clear_syslines (line %d) is not guarded by a test of dt_patterns_counts_in_use()" % cl_.line)
+        gbb_, srcs_ = guards_[-1]
+        stale_ = [x_ for x_ in srcs_ if bz415.dominates(ana_[0].bb, x_)]
+        rep.examined(R415, bz415.path + "|reparse-guard", sample={"clear_syslines_line": cl_.line, "guard_line": bz415.blocks[gbb_].get("l"), "count_taken_at_lines": sorted(bz415.blocks[x_].get("l") for x_ in srcs_), "analysis_line": ana_[0].line, "count_taken_after_the_analysis": bool(stale_)})
+        if stale_:
+            rep.violation(R415, bz415.path + "|reparse-guard|count-after-analysis", "blockzero_analysis_syslines: the test that decides whether the stage-1 messages are parsed again (line %s) uses a pattern count taken after dt_patterns_analysis() (line %s), "
+                          "which is always 1; messages dated during stage 1 by a pattern that then lost the analysis keep that pattern's reading (an offset ignored, a zone name missed) while the rest of the file is read with the winner"
+                          % (bz415.blocks[gbb_].get("l"), bz415.blocks[stale_[0]].get("l")))
+
     # ------------------------------------------------------------ R4.16 no two same-typed arguments change places on the way to the callee
     # The options reach the workers and the printers as long positional argument lists in which several
     # parameters share a type (two FixedOffsets: the zone log lines are read in, the zone datetimes are
